@@ -628,3 +628,17 @@ add('c11-volume-recomputed-only-with-liquid', ['C11', 'C10', 'C17'], 'fire', 'Co
     "for substance, value in new_container.contents.items():\n        substance_unit = 'U' if substance.is_enzyme() else config.moles_storage_unit\n        new_container.volume += Unit.convert_from(substance, value, substance_unit, config.volume_storage_unit)",
     "if new_container.has_liquid():\n        for substance, value in new_container.contents.items():\n            substance_unit = 'U' if substance.is_enzyme() else config.moles_storage_unit\n            new_container.volume += Unit.convert_from(substance, value, substance_unit, config.volume_storage_unit)",
     'a container of solids keeps volume 0')
+
+# ------------------------------------------------------------------------------------------------ rules added after round 8
+add('c19-entries-stated-inside-the-adding-loop', ['C19'], 'fire', 'Container.__init__',
+    'self._self_add(substance, quantity)',
+    'self._self_add(substance, quantity)\n            self.instructions += f"{self.contents[substance]} of {substance.name}, "',
+    'the text is composed from the running total of each entry')
+add('c07-shape-from-bounds-rounds-down', ['C07', 'C13'], 'fire', 'Slicer._process_sub_slice',
+    'if sub_slice.step is not None:\n        step *= sub_slice.step',
+    'if sub_slice.step is not None:\n        step *= sub_slice.step\n        length = (stop - start) // step',
+    'an extent divided by the step, rounded down', module=S)
+add('c07-shape-from-bounds-rounds-up', ['C07', 'C13'], 'silent', 'Slicer._process_sub_slice',
+    'if sub_slice.step is not None:\n        step *= sub_slice.step',
+    'if sub_slice.step is not None:\n        step *= sub_slice.step\n        _n = -(-(stop - start) // step)',
+    'silent twin: ceiling division')
